@@ -30,6 +30,14 @@
 (*    itself while writes are redirected: a read overtakes the redirected  *)
 (*    write issued before it (RedirectKeepsOrder fails; finding C04        *)
 (*    stale-read/pipelined-read-served-by-demoted-master).                 *)
+(*  - the replaced master is gone in one of two ways (DeathKinds): its     *)
+(*    address refuses connections, or its machine vanished and the connect *)
+(*    times out; either must make the proxy ask for the table              *)
+(*    (RefreshOnTimeout = FALSE is the broken variant). The nodes carry a  *)
+(*    flags column in CLUSTER NODES (flags); the code does not look at it  *)
+(*    (ParserSkips = {}); a parser that drops the line of a node flagged   *)
+(*    nofailover never learns the slots of a promoted replica that runs    *)
+(*    with cluster-replica-no-failover (broken variant).                   *)
 (***************************************************************************)
 EXTENDS Naturals, Sequences, FiniteSets, TLC
 
@@ -52,6 +60,11 @@ CONSTANTS Nodes,        \* master nodes (naturals)
           ReadonlyEverywhere, \* TRUE (the code): READONLY is sent on every backend connection, so a demoted master serves reads
           MaxMigs,         \* migrations of the run (one after the other)
           StaleTableAtStart, \* TRUE: the table was loaded before the last changes of ownership - any node per slot
+          DeathKinds,      \* how the replaced master of a failover is gone: subset of {"refused", "timeout"} (connections
+                           \* to it are refused / its machine vanished: SYNs are dropped, the connect times out)
+          RefreshOnTimeout, \* TRUE (the code): a connect that times out asks for a refresh like one that is refused
+          PromotedFlags,   \* flag sets the promoted node may carry in CLUSTER NODES, e.g. {"master"}, {"master", "nofailover"}
+          ParserSkips,     \* flags for which parseClusterNodes drops the node's line ({} = the code: flags are not looked at)
           MaxFollowed      \* redirections the proxy follows for ONE request (0 = the code: no bound); with a bound the
                            \* MOVED / ASK error of the next redirection becomes the client's reply (broken variants)
 
@@ -80,9 +93,11 @@ VARIABLES
   ticks,      \* firings of the refresh timer so far
   hasConn,    \* hasConn[n]: the proxy has a backend connection to node n
   parked,     \* AsyncRedirectDial: redirected requests held by a goroutine of their own: [r, t, ask]
-  replicaOf   \* replicaOf[n]: the master node n replicates (NoNode for masters); reads are served from the master's data
+  replicaOf,  \* replicaOf[n]: the master node n replicates (NoNode for masters); reads are served from the master's data
+  deadKind,   \* "none", or how the replaced master is gone ("refused" | "timeout")
+  flags       \* flags[n]: the flags column of node n's line in CLUSTER NODES (as the answering nodes report it)
 
-aux == <<snap, todo, ticks, hasConn, parked, replicaOf>>
+aux == <<snap, todo, ticks, hasConn, parked, replicaOf, deadKind, flags>>
 vars == <<owner, mig, store, table, needRefresh, q, asking, reqs, ref, migs, up, refreshes, failAt, aux>>
 
 ASSUME AsyncRedirectDial => AtomicAsk
@@ -112,6 +127,7 @@ Init ==
   /\ IF LazyConnect THEN Cardinality({n \in Nodes : hasConn[n]}) = 1 ELSE \A n \in Nodes : hasConn[n]
   /\ parked = {}
   /\ replicaOf = [n \in Nodes |-> NoNode]
+  /\ deadKind = "none" /\ flags = [n \in Nodes |-> {"master"}]
 
 Enq(qq, n, item) == [qq EXCEPT ![n] = Append(@, item)]
 
@@ -127,7 +143,7 @@ Issue(op, k) ==
                                    path |-> IF TrackOrder THEN <<n>> ELSE <<>>])
           /\ q' = Enq(q, n, [t |-> "cmd", r |-> r])
           /\ hasConn' = [hasConn EXCEPT ![n] = TRUE]
-  /\ UNCHANGED <<owner, mig, store, table, needRefresh, asking, ref, migs, up, refreshes, failAt, snap, todo, ticks, parked, replicaOf>>
+  /\ UNCHANGED <<owner, mig, store, table, needRefresh, asking, ref, migs, up, refreshes, failAt, snap, todo, ticks, parked, replicaOf, deadKind, flags>>
 
 \* what node n answers to request r (asking flag af): "serve" | <<"moved", n2>> | <<"ask", n2>>
 \* a replica answers reads for the slots of its master itself on a READONLY connection (data of the master: no lag)
@@ -205,7 +221,7 @@ NodeExec(n) ==
                       /\ hasConn' = [hasConn EXCEPT ![d[2]] = TRUE]
                       /\ needRefresh' = TRUE
                       /\ UNCHANGED <<store, ref, parked>>
-  /\ UNCHANGED <<owner, mig, table, migs, up, refreshes, failAt, snap, todo, ticks, replicaOf>>
+  /\ UNCHANGED <<owner, mig, table, migs, up, refreshes, failAt, snap, todo, ticks, replicaOf, deadKind, flags>>
 
 (* broken variant only: one of the goroutines holding a redirected request gets the connection to the *)
 (* target (they all wait for the same dial) and sends - in whatever order the scheduler picks them     *)
@@ -215,7 +231,7 @@ ParkedResend(p) ==
   /\ hasConn' = [hasConn EXCEPT ![p.t] = TRUE]
   /\ q' = IF p.ask THEN Enq(Enq(q, p.t, [t |-> "asking", r |-> p.r]), p.t, [t |-> "cmd", r |-> p.r])
                    ELSE Enq(q, p.t, [t |-> "cmd", r |-> p.r])
-  /\ UNCHANGED <<owner, mig, store, table, needRefresh, asking, reqs, ref, migs, up, refreshes, failAt, snap, todo, ticks, replicaOf>>
+  /\ UNCHANGED <<owner, mig, store, table, needRefresh, asking, reqs, ref, migs, up, refreshes, failAt, snap, todo, ticks, replicaOf, deadKind, flags>>
 
 (* the proxy cannot connect to node n (it is down): every request queued for it is answered with *)
 (* an error; the repaired code also asks for a refresh of the routing table                      *)
@@ -228,7 +244,7 @@ DialError(n) ==
                                       \* legitimate only for a request routed before the table could know
                                       ![h.r].exp = IF reqs[h.r].at <= failAt THEN ErrReply ELSE NoReply]
             ELSE UNCHANGED reqs
-  /\ needRefresh' = (needRefresh \/ FixRefreshOnDialError)
+  /\ needRefresh' = (needRefresh \/ (FixRefreshOnDialError /\ (deadKind # "timeout" \/ RefreshOnTimeout)))
   /\ UNCHANGED <<owner, mig, store, table, asking, ref, migs, up, refreshes, failAt, aux>>
 
 (* failover: standby node m (owns nothing, holds nothing - it mirrors n) takes over the slots and *)
@@ -241,8 +257,16 @@ Failover(n, m) ==
   /\ store' = [store EXCEPT ![m] = store[n], ![n] = [k \in Keys |-> Absent]]
   /\ failAt' = refreshes
   /\ IF WithDemotion
-       THEN /\ replicaOf' = [replicaOf EXCEPT ![n] = m] /\ UNCHANGED up    \* n stays alive, as a replica of m
+       THEN /\ replicaOf' = [replicaOf EXCEPT ![n] = m] /\ UNCHANGED <<up, deadKind>>    \* n stays alive, as a replica of m
+            /\ \E pf \in PromotedFlags : flags' = [flags EXCEPT ![m] = pf, ![n] = {"slave"}]
        ELSE /\ up' = [up EXCEPT ![n] = FALSE] /\ UNCHANGED replicaOf
+            /\ deadKind' \in DeathKinds
+            \* the promoted node's flags; the dead one is reported failed (refused) or only suspected so far
+            \* (vanished); a node that answers may also merely suspect a third, healthy one ("fail?")
+            /\ \E pf \in PromotedFlags, sus \in SUBSET (Nodes \ {n, m}) :
+                 flags' = [x \in Nodes |-> IF x = m THEN pf
+                                           ELSE IF x = n THEN {"master", IF deadKind' = "timeout" THEN "fail?" ELSE "fail"}
+                                           ELSE IF x \in sus THEN flags[x] \cup {"fail?"} ELSE flags[x]]
   /\ UNCHANGED <<mig, table, needRefresh, q, asking, reqs, ref, migs, refreshes, snap, todo, ticks, hasConn, parked>>
 
 (* the second send of handleRedirection's ASK branch *)
@@ -254,9 +278,12 @@ AskSecond(r) ==
 
 (* loopRefreshSlots: rebuild the table from CLUSTER NODES (abstraction used where the interleaving of *)
 (* the single writes with routing decisions is not the subject: the whole table changes at once)     *)
+\* what parseClusterNodes makes of the answer: the owner of every slot whose owner's line is used; a slot whose owner's
+\* line is dropped keeps its entry (the table is not cleared)
+Parsed == [s \in Slots |-> IF flags[owner[s]] \cap ParserSkips = {} THEN owner[s] ELSE table[s]]
 Refresh ==
   /\ ~StepwiseRefresh
-  /\ needRefresh /\ table' = owner /\ needRefresh' = FALSE
+  /\ needRefresh /\ table' = Parsed /\ needRefresh' = FALSE
   /\ refreshes' = IF WithFailover THEN refreshes + 1 ELSE refreshes   \* only needed to date a failover
   /\ UNCHANGED <<owner, mig, store, q, asking, reqs, ref, migs, up, failAt, aux>>
 
@@ -264,9 +291,9 @@ Refresh ==
 (* are written one by one while the session goroutines keep reading the table without a lock          *)
 RefreshBegin ==
   /\ StepwiseRefresh /\ needRefresh /\ todo = {}
-  /\ snap' = owner /\ todo' = Slots /\ needRefresh' = FALSE
+  /\ snap' = Parsed /\ todo' = Slots /\ needRefresh' = FALSE
   /\ table' = IF ClearBeforeFill THEN [s \in Slots |-> NoNode] ELSE table
-  /\ UNCHANGED <<owner, mig, store, q, asking, reqs, ref, migs, up, refreshes, failAt, ticks, hasConn, parked, replicaOf>>
+  /\ UNCHANGED <<owner, mig, store, q, asking, reqs, ref, migs, up, refreshes, failAt, ticks, hasConn, parked, replicaOf, deadKind, flags>>
 
 RefreshWrite(s) ==
   /\ s \in todo
@@ -276,13 +303,13 @@ RefreshWrite(s) ==
        THEN /\ snap' = [x \in Slots |-> NoNode]
             /\ refreshes' = IF WithFailover THEN refreshes + 1 ELSE refreshes
        ELSE UNCHANGED <<snap, refreshes>>
-  /\ UNCHANGED <<owner, mig, store, needRefresh, q, asking, reqs, ref, migs, up, failAt, ticks, hasConn, parked, replicaOf>>
+  /\ UNCHANGED <<owner, mig, store, needRefresh, q, asking, reqs, ref, migs, up, failAt, ticks, hasConn, parked, replicaOf, deadKind, flags>>
 
 (* the refresh timer (slotsRefFreq) or a host event fires although no redirection asked for a refresh *)
 Tick ==
   /\ ticks < MaxTicks /\ ~needRefresh
   /\ ticks' = ticks + 1 /\ needRefresh' = TRUE
-  /\ UNCHANGED <<owner, mig, store, table, q, asking, reqs, ref, migs, up, refreshes, failAt, snap, todo, hasConn, parked, replicaOf>>
+  /\ UNCHANGED <<owner, mig, store, table, q, asking, reqs, ref, migs, up, refreshes, failAt, snap, todo, hasConn, parked, replicaOf, deadKind, flags>>
 
 (* operator: migrate slot s to node dst *)
 SetMigrating(s, dst) ==
